@@ -21,3 +21,20 @@ CHECKS["C06"] = (
     "DESIGN.md#c06",
 )
 NA.pop("C06", None)
+
+CHECKS["C05"] = (
+    "other",
+    "static analysis: table extraction of the face->edge layout from its single producer and def-use / reshape-width agreement checks in every consumer; finite evaluation of winding-test slices",
+    "Decides the layout contract every edge-based topological query relies on (three winding-ordered directed edges per face, contiguous, face index repeated in step; consumers regroup with the same width and take edges and edge->face index from one producer call; winding tests compare head with tail of the twin edge). A necessary condition of C05 for all face arrays; the combinatorial equalities themselves are not decided.",
+    "Trusted: numpy reshape/tile/repeat semantics as modelled; the consumer list was enumerated by reading the repository and is frozen in the checker.",
+    "DESIGN.md#c05",
+)
+NA.pop("C05", None)
+CHECKS["C11"] = (
+    "other",
+    "static analysis: exhaustive finite-domain (27 sign vectors) abstract evaluation of the case-table ASTs of mesh_plane.triangle_cases and slice_faces_plane; handler preconditions read from handler bodies",
+    "Decides, for every mesh and plane at once, that the sign-pattern case analysis is a partition consistent with the handlers it dispatches to: codes injective and in range, masks disjoint, each mask selects exactly the patterns its handler's indexing assumes, one on-edge pattern only, slice inside/cut/outside classification and quad/triangle split consistent. Geometry of the produced segments, closedness, area/volume additivity and capping are not decided.",
+    "Trusted: the row-wise interpreter's transfer functions (sort, shift-add, boolean key table, sums, logical_and); enumeration of {-1,0,1}^3 is complete for the abstract domain because classification depends on signs only.",
+    "DESIGN.md#c11",
+)
+NA.pop("C11", None)
